@@ -731,7 +731,10 @@ func (a *Assembler) AssembleWithContext(netFlow gopacket.Flow, t *layers.TCP, ac
 	}
 	if action.nextSeq != invalidSequence {
 		half.nextSeq = action.nextSeq
-		if t.FIN {
+		// The FIN takes its sequence number once it has been delivered (the
+		// half is then closed); a FIN that only triggered a buffer-limit
+		// flush of older data is still outstanding.
+		if t.FIN && half.closed {
 			half.nextSeq = half.nextSeq.Add(1)
 		}
 	}
